@@ -1228,7 +1228,8 @@ def check_efun(c, kind, margs, form='args'):
     else:
         call = lambda: f(a for a in iargs)
     pat = '%s:%s:%s' % (kind, form, ','.join(okind(a) for a in margs))
-    fresh = len(margs) > 1
+    # (mul of a single matrix is still a regular operation: a new object)
+    fresh = len(margs) > 1 or kind == 'mul'
     check_op(c, 'efun', pat, {'f': 'cvxopt.' + kind, 'form': form, 'args': [describe(a) for a in margs]},
              lambda: R.efun(kind, list(margs), form != 'args'), call, ops, tol=TOL if kind == 'div' else 0.0, fresh=fresh, numtype=False)
 
